@@ -52,6 +52,7 @@ pub fn c13(log: &mut Log, seed: u64, tier: &str) {
                 fst::raw::verif::set_geometry(geo);
                 let snap = alloc::begin();
                 let mut b = Builder::new(io::sink()).unwrap();
+                let cells = { let (r, c) = fst::raw::verif::last_geometry(); let _ = cells; r * c };
                 let mut ext = [b'a'; KEYLEN + 1];
                 for i in 0..(n / 2) {
                     let (k, c) = gen.next();
@@ -78,6 +79,7 @@ pub fn c13(log: &mut Log, seed: u64, tier: &str) {
                 fst::raw::verif::set_geometry(geo);
                 let snap = alloc::begin();
                 let mut b = Builder::new(io::sink()).unwrap();
+                let cells = { let (r, c) = fst::raw::verif::last_geometry(); let _ = cells; r * c };
                 let mut mid_peak = 0;
                 for i in 0..n {
                     let (k, c) = gen.next();
